@@ -44,7 +44,8 @@ func optBytes(b []byte) string { return vh.Opt(b != nil, vh.Bytes(b)) }
 func viewCoq(n *ft.FSNode) string {
 	mt := n.ModTime()
 	d := n.Data()
-	return fmt.Sprintf("{| v_type := %s; v_mode := %s; v_ext := %s; v_time := %s; v_tzero := %s; v_size := %s; v_datalen := %s; v_blocks := %s |}",
+	// positional constructor: record syntax elaborates several times slower in coqc
+	return fmt.Sprintf("(Build_view %s %s %s %s %s %s %s %s)",
 		vh.Z(int64(n.Type())), vh.ZU(uint64(uint32(n.Mode()))), vh.ZU(uint64(n.ExtendedMode())),
 		viewTime(mt).coq(), vh.Bool(mt.IsZero()), vh.ZU(n.FileSize()),
 		vh.Opt(d != nil, vh.Z(int64(len(d)))), vh.ListOf(n.BlockSizes(), vh.ZU))
@@ -572,11 +573,19 @@ func TestC18(t *testing.T) {
 		st.Count("kind:corpus")
 	}
 
-	// ---- exhaustive permission words: every 12-bit value, via both setters ----
+	// ---- permission words via both setters: thorough = every 12-bit value three
+	// times (each type / extended-bit pattern / setter); quick = every 4th word
+	// (offset chosen by the seed) plus all words with at most two bits set.  The
+	// translated shuffles themselves are swept exhaustively inside Coq on every run.
 	exts := []uint32{0, 1, 0xFFFFF}
 	rounds := env.Pick(1, 3)
+	off := int(uint64(env.Seed) % 4)
+	fewBits := func(p int) bool { return p&(p-1) == 0 || (p&(p-1))&((p&(p-1))-1) == 0 }
 	for round := 0; round < rounds; round++ {
 		for p := 0; p < 4096; p++ {
+			if !env.Thorough() && p%4 != off && !fewBits(p) {
+				continue
+			}
 			ty := []int{2, 1, 4, 0, 5, 3}[(p+round)%6]
 			h := genInit(r, ty)
 			x := exts[(p+round)%3]
@@ -619,7 +628,7 @@ func TestC18(t *testing.T) {
 	}
 
 	// ---- random histories ----
-	nh := env.Pick(1500, 40000)
+	nh := env.Pick(900, 40000)
 	for i := 0; i < nh; i++ {
 		h := genInit(r, -1)
 		for j, n := 0, r.Intn(9); j < n; j++ {
@@ -642,7 +651,7 @@ func TestC18(t *testing.T) {
 	for _, b := range foreignCorpus {
 		emitForeign(cs, st, b)
 	}
-	nf := env.Pick(600, 15000)
+	nf := env.Pick(400, 15000)
 	for i := 0; i < nf; i++ {
 		emitForeign(cs, st, genForeign(r, st))
 		st.Count("kind:foreign")
